@@ -171,6 +171,9 @@ def try_replay(ses, g, ob, r, ground=False):
     v = g['verifier']
     fn = v.fn
     details = {'status': 'not-attempted'}
+    if getattr(v, 'start_block', 0):
+        # a region contract starts from a state in the middle of the function: there is no call that sets it up
+        raise NoReplay('region contract: the state at the start of the region is not an input of the function')
     if fn.get('recv') and False:
         return False, details
     try:
